@@ -218,6 +218,8 @@ class IMAPConnection:
                     raise AuthenticationError() from exc
                 else:
                     responses.append(ChallengeResponse(chal.data, resp_dec))
+            except UnicodeError as exc:
+                raise AuthenticationError('Invalid encoding.') from exc
             else:
                 if final is not None:
                     cont = ResponseContinuation(b64encode(final))
